@@ -17,6 +17,7 @@ import (
 // the second RLock forever).
 func reentrancyObligations(r *engine.Report, p *engine.Program, rule string, fns []*ssa.Function, lockFields map[*types.Var]bool) int {
 	n := 0
+	reported := map[string]bool{}
 	for _, fn := range fns {
 		lf := p.Locks(fn)
 		for _, ci := range engine.CallsIn(fn) {
@@ -27,16 +28,16 @@ func reentrancyObligations(r *engine.Report, p *engine.Program, rule string, fns
 				// direct re-acquire of a held lock
 				op, _ := p.LockOpOf(ci)
 				if op.Acquire && !op.Deferred {
-					h := lf.HeldAt(ci)
+					h := lf.MayHeldAt(ci)
 					if _, held := h[op.Path.String()]; held && !op.Path.Opaque() && (lockFields == nil || lockFields[op.Path.Last()]) {
 						n++
 						r.Add(rule, fmt.Sprintf("%s: re-acquires %s", engine.FuncName(fn), op.Path), ci.Pos(), engine.Violated,
-							fmt.Sprintf("%s is acquired while already must-held in the same function", op.Path))
+							fmt.Sprintf("%s is acquired while it may already be held on a path through the same function", op.Path))
 					}
 				}
 				continue
 			}
-			h := lf.HeldAt(ci)
+			h := lf.MayHeldAt(ci)
 			if len(h) == 0 {
 				continue
 			}
@@ -64,8 +65,12 @@ func reentrancyObligations(r *engine.Report, p *engine.Program, rule string, fns
 						continue
 					}
 					if _, held := h[tp.String()]; held {
-						n++
 						construct := fmt.Sprintf("%s → %s: %s", engine.FuncName(fn), engine.FuncName(callee), tp.Last().Name())
+						if reported[construct] {
+							continue
+						}
+						reported[construct] = true
+						n++
 						r.Add(rule, construct, ci.Pos(), engine.Violated,
 							fmt.Sprintf("%s holds %s and calls %s, which acquires it again via %s (at %s): self-deadlock", engine.FuncName(fn), tp, engine.FuncName(callee), a.Via, p.Pos(a.Pos))).Path = a.Via
 					}
